@@ -188,7 +188,8 @@ MANIFEST_META = {
     "level_text": "Every generated (config, key-tuple pair, cse) makes kingdon generate and compile a fresh gp function; "
                   "its output on indeterminate coefficients is compared, blade by blade, with the bilinear extension of an "
                   "independently derived sign table, which decides the identity for all coefficient values of that pattern. "
-                  "All patterns for d<=1 (quick) / d<=2 (thorough) are enumerated; larger d and custom bases are sampled.",
+                  "All patterns for d<=1 (quick) / d<=2 (thorough) are enumerated; larger d and custom bases are sampled."
+                  " Six fixed d=6 cases with operands of 40-64 blades (64 outputs, sums of up to 64 terms) run every time; algebras are also obtained from a re-used ndarray signature and via dataclasses.replace.",
     "level_note": "Trusted: kv.refalg (bubble-sort Clifford product over generator names), kv.refops, kv.ring.Q, CPython "
                   "fractions, Hypothesis. Not absence of bugs: patterns for d>=3 are sampled, d>5 not explored here.",
 }
